@@ -364,6 +364,12 @@ def main_wrapper(fn):
     except subprocess.TimeoutExpired as e:
         print("INFRA: timeout " + str(e), file=sys.stderr)
         sys.exit(2)
+    except Exception:  # a bug in the harness is an infrastructure failure, never a violation
+        import traceback
+        traceback.print_exc()
+        print("INFRA: harness exception", file=sys.stderr)
+        sys.stderr.flush()
+        os._exit(2)
     sys.stdout.flush()
     sys.stderr.flush()
     os._exit(rc)  # skip library destructors that complain at interpreter shutdown
